@@ -8,7 +8,7 @@ from harness import core, py2lean, instantiate
 from harness.core import Outcome, f2b, b2f
 
 ID = "C02"
-LEAN_TARGETS = ["BeyondVerif.Props.C02"]
+LEAN_TARGETS = ["BeyondVerif.Props.C02", "BeyondVerif.Witness.C02"]
 THEOREMS = [
     "BeyondVerif.C02.rot1_isRotation",
     "BeyondVerif.C02.rot2_isRotation",
@@ -39,6 +39,16 @@ THEOREMS = [
     "BeyondVerif.C02.transform_roundtrip_same_centre",
     "BeyondVerif.C02.velocity_is_derivative",
     "BeyondVerif.C02.earth_rotation_rate",
+    "BeyondVerif.Memo.run_eq_map",
+    "BeyondVerif.Memo.run_stale",
+    "BeyondVerif.Memo.sound_iff",
+    "BeyondVerif.C02.sessionRun_pure",
+    "BeyondVerif.C02.session_history_independent",
+    "BeyondVerif.C02.session_order_independent",
+    "BeyondVerif.C02.KeyOK_of_text_determines_tt",
+    "BeyondVerif.C02.session_stale",
+    "BeyondVerif.C02W.text_keyed_memo_history_dependent",
+    "BeyondVerif.C02W.text_keyed_memo_order_dependent",
 ]
 LEVEL_TEXT = ("Lean theorems over R about a model of beyond/frames whose formulas (rot1/2/3, precession/nutation arguments, GMST, ERA, rate, CIO matrix, "
               "constant matrices, station matrix) are translated from the Python AST on every run: every rot and every product of rots is a proper rotation "
@@ -189,6 +199,15 @@ def indep_rows():
                     return float(t) if t else None
                 r = _rows.setdefault(mjd, {})
                 r.update({"x": col(19, 27), "y": col(38, 46), "ut1_utc": col(59, 68), "lod": col(80, 86), d1: col(98, 106), d2: col(117, 125)})
+        # documented behaviour of the readers for the last months of the files: a blank LOD / dX,dY / dPsi,dEps keeps the last value given
+        last = {}
+        for mjd in sorted(_rows):
+            r = _rows[mjd]
+            for k in ("lod", "dx", "dy", "dpsi", "deps"):
+                if r.get(k) is None and k in last:
+                    r[k] = last[k]
+                elif r.get(k) is not None:
+                    last[k] = r[k]
     return _rows
 
 
@@ -438,7 +457,9 @@ class Scenario:
         from beyond.orbits import StateVector
         from beyond.frames.frames import orbit2frame, get_frame, EME2000
         from beyond.frames.stations import create_station
-        self.idx = idx
+        import logging
+        logging.getLogger("beyond.frames.frames").setLevel(logging.ERROR)   # re-registration under the same names is intended here
+        self.idx, self.tag = idx, tag
         ITRF, EME = idx["ITRF"], idx["EME2000"]
         self.ITRF, self.EME = ITRF, EME
         n = lambda x: f"C02s{tag}{x}"
@@ -834,20 +855,27 @@ def oracle(ctx, widened):
         if mode in ("real", "zero", "missing"):
             attached_oracle(out, rng, scs, mode, 60 if big else 8)
     history_oracle(out, rng, big)
+    # the same names registered again with another specification, the same instants before and after: "attached to X" follows the new X
     set_eop("real")
+    insts = [rand_ds(rng) for _ in range(3)]
+    attached_oracle(out, rng, scs[:1], "real", 12 if big else 3, instants=insts)
+    _scenarios[0] = Scenario(rng, scs[0].idx, scs[0].tag)
+    sc_class.update({f[0]: f[3] for f in _scenarios[0].frames})
+    attached_oracle(out, rng, _scenarios[:1], "real", 24 if big else 4, instants=insts, kind=":after-re-registration")
     out.sample({"checks": "A->B->C vs A->C, A->B->A, orthonormality/det/block form, |r| preserved, Richardson finite-difference velocity, GMST82/ERA/IAU76 precession vs independent formulas, 1980 vs 2010 chain, EOP file reader vs independent column parse"})
     return out
 
 
-def attached_oracle(out, rng, scs, mode, n):
+def attached_oracle(out, rng, scs, mode, n, instants=None, kind=""):
     """What "a frame attached to X" means, on the real API, with expected values written by hand:
     X itself is the origin of the frame (both ways), and a point X + d is seen at d (same axes) or at R d (QSW/TNW axes of X).
     Covers references given in Earth-centred, orbit-attached (nested), station and Moon-centred frames, default and non-default parents."""
     import numpy as np
+    from beyond.dates import Date
     from beyond.orbits import StateVector
     for _ in range(n):
         sc = rng.choice(scs)
-        date = rand_date(rng)
+        date = rand_date(rng) if instants is None else Date(*rng.choice(instants))
         pvA = np.array(sc.A.propagate(date))
         N = sc.names
         # (attached frame, class, reference state, frame it is given in, axes of the attached frame relative to that frame)
@@ -865,15 +893,15 @@ def attached_oracle(out, rng, scs, mode, n):
                       ("origin-back", lambda: np.array(StateVector(np.zeros(6), date, "cartesian", F).copy(frame=G)), X, True),
                       ("offset", lambda: np.array(StateVector(X + d, date, "cartesian", G).copy(frame=F)), np.concatenate([R @ d[:3], np.zeros(3)]), inert)]
             for name, fn, exp, with_vel in checks:
-                out.count(key=("attached", name, mode, F, str(date)), kind="attached-" + name, cls=cls, eop=mode)
+                out.count(key=("attached", name, mode, F, str(date), kind), kind="attached-" + name, cls=cls, eop=mode)
                 try:
                     got = fn()
                 except Exception as e:
-                    out.fail(f"attached-{name}:{cls}", f"conversion to/from a frame attached to a state given in {G} raised {type(e).__name__}: {e}", inp, observed="exception", expected=list(map(float, exp)))
+                    out.fail(f"attached-{name}:{cls}{kind}", f"conversion to/from a frame attached to a state given in {G} raised {type(e).__name__}: {e}", inp, observed="exception", expected=list(map(float, exp)))
                     continue
                 ok = np.all(np.abs(got[:3] - exp[:3]) <= tp) and (not with_vel or np.all(np.abs(got[3:] - exp[3:]) <= tv))
                 if not ok:
-                    out.fail(f"attached-{name}:{cls}", f"frame attached to a state given in {G}: {name} check fails (the reference is the origin; X + d is seen at d / R d)",
+                    out.fail(f"attached-{name}:{cls}{kind}", f"frame attached to a state given in {G}: {name} check fails (the reference is the origin; X + d is seen at d / R d)",
                              dict(inp, d=list(map(float, d))), observed=list(map(float, got)), expected=list(map(float, exp)))
 
 
@@ -955,16 +983,6 @@ def parse_tab52():
     return out
 
 
-def date_args(date):
-    from beyond.frames import iau1980, iau2010
-    tt, ut1 = date.change_scale("TT"), date.change_scale("UT1")
-    n106 = iau1980._nutation(date, False, 106)
-    n4 = iau1980._nutation(date, False, 4)
-    xys = iau2010._xysxy2(date)
-    e = date.eop
-    return [tt.julian_century, ut1.julian_century, ut1.jd, float(date.d), e.x, e.y, e.dx, e.dy, e.lod, n106[1], n106[2], n4[1], n4[2], xys[0], xys[1], xys[2]]
-
-
 def fl(xs):
     return [f2b(float(x)) for x in xs]
 
@@ -984,6 +1002,113 @@ def cmp_floats(out, family, what, inp, real, reply, rtol=1e-10, atol=0.0):
     return model
 
 
+class Visit:
+    """One (configuration, instant) of a history: the real conversions are made FIRST — the harness reads nothing from the library's
+    internals before them — then what the model is given is collected: the date arguments as a pure function of the TEXT of the
+    date and the independently known EOP record of the current configuration (`pure_times`), the frame specification at the date."""
+
+    def __init__(self, out, rng, sc, mode, scale, d, s, s_utc, date, nconv, nxf, kind, orient_only=None):
+        import numpy as np
+        from beyond.frames import iau1980, iau2010
+        from beyond.frames.frames import get_frame
+        self.mode, self.scale, self.d, self.s, self.s_utc, self.sc, self.kind = mode, scale, d, s, s_utc, sc, kind
+        self.conv, self.xf = [], []
+        self.text = f"Date({d}, {s!r}, scale='{scale}')"
+        tag = dict(eop=mode, history=kind, scale=scale)
+        byori = {}
+        for fr in sc.frames:
+            byori.setdefault(fr[1], fr)
+        if orient_only is not None:
+            byori = {k: v for k, v in byori.items() if k in orient_only}
+        last = None
+        for _ in range(nconv):
+            fa, fb = byori[rng.choice(list(byori))], byori[rng.choice(list(byori))]
+            if last is not None and rng.random() < 0.15:
+                fa, fb = last                                   # the same request again
+            last = (fa, fb)
+            try:
+                m = get_frame(fa[0]).orientation.convert_to(date, get_frame(fb[0]).orientation)
+                shape_err = max(np.abs(m[:3, 3:]).max(), np.abs(m[3:, 3:] - m[:3, :3]).max())
+                res = list(m[:3, :3].flatten()) + list(m[3:, :3].flatten())
+                if shape_err > 1e-13:
+                    out.fail("convert-shape", "6x6 matrix is not of the form [[R,0],[B,R]]", {"eop": mode, "date": self.text, "a": fa[0], "b": fb[0]}, observed=float(shape_err), expected=0.0)
+            except Exception as e:   # connected orientations must be convertible
+                res = f"raised {type(e).__name__}: {e}"
+            self.conv.append((fa, fb, res))
+            a, b = fa[1], fb[1]
+            out.count(key=("conv", mode, self.text, fa[0], fb[0], kind), nontrivial=a != b, kind="orient-convert", pair=f"{min(a, 10)}-{min(b, 10)}" if max(a, b) >= 10 else "builtin", **tag)
+        if nxf:
+            sv0 = make_orbit(rand_kepl(rng), date).copy(form="cartesian")
+        last = None
+        for _ in range(nxf):
+            fa, fb = rng.choice(sc.frames), rng.choice(sc.frames)
+            if last is not None and rng.random() < 0.15:
+                fa, fb = last
+            last = (fa, fb)
+            inp = {"eop": mode, "date": self.text, "from": fa[0], "to": fb[0]}
+            try:
+                sa = sv0.copy(frame=fa[0])
+            except Exception as e:
+                out.fail("model-transform", f"conversion EME2000 -> {fa[3]} raised {type(e).__name__}: {e}", inp, observed="exception", expected="a state")
+                continue
+            try:
+                res = np.array(sa.copy(frame=fb[0]))
+            except Exception as e:
+                res = f"raised {type(e).__name__}: {e}"
+            self.xf.append((fa, fb, np.array(sa), res))
+            out.count(key=("xf", mode, self.text, fa[0], fb[0], kind), nontrivial=fa[0] != fb[0], kind="frame-transform", pair=f"{fa[3] if fa[2] or fa[1] >= 10 else 'builtin'}>{fb[3] if fb[2] or fb[1] >= 10 else 'builtin'}", **tag)
+        # ---- what the model is given
+        rec = indep_record(mode, d + s_utc / 86400.0)
+        self.rec_known = rec is not None
+        if rec is None:                       # outside 1973-2017: the record the library attached (checked against nothing)
+            rec = rec_of(date.eop)
+        else:
+            for k in EOP_FIELDS:
+                if float(getattr(date.eop, k)) != rec[k]:
+                    out.fail(f"eop-of-configuration:{mode}:{k}", f"date.eop.{k} is not the value of the configured EOP source for that day", {"eop": mode, "date": self.text, "record": rec},
+                             observed=float(getattr(date.eop, k)), expected=rec[k])
+        self.rec = rec
+        t = pure_times(scale, d, s, rec)
+        # time-scale arithmetic is C03's subject: the library's own TT / UT1 of this Date object are taken when they are the ones of the
+        # record to the last bit or two of the Julian date (4e-5 s), so that a rounding of the last bit is not reported here
+        lib_tt, lib_ut1 = date.change_scale("TT"), date.change_scale("UT1")
+        if abs(lib_ut1.jd - t["jdut1"]) <= 1e-9 and abs(lib_tt.julian_century - t["ttt"]) <= 1e-13:
+            t["jdut1"], t["tut1"], t["ttt"] = lib_ut1.jd, lib_ut1.julian_century, lib_tt.julian_century
+        else:
+            out.fail(f"timescale-of-record:{mode}:{scale}", "date.change_scale('UT1'/'TT') is not the text of the date plus the offsets of its EOP record", {"eop": mode, "date": self.text, "record": rec},
+                     observed=[lib_ut1.jd, lib_tt.julian_century], expected=[t["jdut1"], t["ttt"]])
+        if float(date.d) != t["day"]:
+            out.fail("date-day", "date.d is not the day of the text", {"date": self.text}, observed=float(date.d), expected=t["day"])
+        self.t = t
+        if orient_only is None:
+            self.ex, self.cl = sc.model_inputs(date)
+            # the memoized / series functions as the library answers them NOW (after the conversions)
+            self.lib_nut = {n: iau1980._nutation(date, False, n) for n in (106, 4)}
+            self.lib_xys = iau2010._xysxy2(date) if kind != "fresh" or rng.random() < 0.3 else None
+
+    def D(self, ser80, ser10):
+        """the 18 date floats of the model: times and record from the text + configuration, series from the MODEL at the TT century"""
+        t, r = self.t, self.rec
+        n106, n4, xys = ser80[106][t["ttt"]], ser80[4][t["ttt"]], ser10[t["ttt"]]
+        return fl([t["ttt"], t["tut1"], t["jdut1"], t["day"], r["x"], r["y"], r["dx"], r["dy"], r["lod"], n106[1], n106[2], n4[1], n4[2], xys[0], xys[1], xys[2], n106[0], n4[0]])
+
+
+def history_plan(rng, scale, n_inst, rounds, modes):
+    """instants shared by the configurations, visited in varying orders, each (configuration, instant) possibly several times"""
+    insts = [(rng.randrange(MJD_MIN, MJD_MAX), round(rng.uniform(200, 86200), rng.choice([0, 3, 6]))) for _ in range(n_inst)]
+    if rng.random() < 0.5:
+        insts[0] = (rng.randrange(50506 - 1800, 50506 + 1800), insts[0][1])
+    plan = []
+    for _ in range(rounds):
+        order = list(modes)
+        rng.shuffle(order)
+        for mode in order:
+            sub = rng.sample(range(n_inst), rng.randint(max(1, n_inst - 1), n_inst))
+            sub.insert(rng.randrange(len(sub) + 1), rng.choice(sub))
+            plan.append((mode, [(i, insts[i][0], insts[i][1] if scale == "UTC" else round(insts[i][1] + indep_leap(insts[i][0]), 6), insts[i][1]) for i in sub]))
+    return plan
+
+
 def correspondence(ctx):
     import numpy as np
     from beyond.dates import Date
@@ -994,44 +1119,35 @@ def correspondence(ctx):
     out = Outcome()
     rng = ctx.rng
     reqs, post = [], []
-    # self-check of the independent table parsers against the library's own readers
+    # self-check of the independent table parsers against the library's own (memoized) readers, asked in varying order, twice
     t51, t52 = parse_tab51(), parse_tab52()
-    lib51 = [[float(v) for v in ints] + list(reals) for ints, reals in iau1980._tab(106)]
-    lib52 = iau2010._tab()
-    if t51 != lib51 or any(rows != [[float(v) for v in r] for r in lib52[tab][j]] for tab, j, rows in t52):
-        out.fail("table-reader", "iau1980._tab / iau2010._tab differ from an independent parse of the data files", {}, observed="differs")
+    asks = [106, 4, None, 106, 4, 30]
+    rng.shuffle(asks)
+    for n in asks:
+        got = [[float(v) for v in ints] + list(reals) for ints, reals in iau1980._tab(n)]
+        if got != (t51[:n] if n else t51):
+            out.fail("table-reader", f"iau1980._tab({n}) differs from an independent parse of tab5.1.txt (asked in the order {asks})", {"max_i": n, "order": asks}, observed=len(got), expected=len(t51[:n] if n else t51))
+        out.count(key=("tab80", n), kind="table-reader")
+    for _ in range(2):
+        lib52 = iau2010._tab()
+        if any(rows != [[float(v) for v in r] for r in lib52[tab][j]] for tab, j, rows in t52):
+            out.fail("table-reader", "iau2010._tab differs from an independent parse of the data files", {}, observed="differs")
     out.count(key="tables", kind="table-reader")
     names = orient_names()
     idx = {n: i for i, n in enumerate(names)}
-    sta = stations()
-    bod = body_frames()
-    # ---- series folds (one batched request each)
-    set_eop("real")
-    sdates = [rand_date(rng) for _ in range(ctx.n(25, 400))]
-    ttts = [d.change_scale("TT").julian_century for d in sdates]
-    for terms in (106, 4):
-        rows = t51[:terms]
-        reqs.append(" ".join(["c02ser80", str(len(ttts))] + fl(ttts) + [str(len(rows))] + [t for r in rows for t in fl(r)]))
-        real = [v for d in sdates for v in iau1980._nutation(d, False, terms)[1:]]
-        post.append(("series80", {"terms": terms, "dates": [str(d) for d in sdates[:3]]}, real, 1e-9, 1e-15))
-        for d in sdates:
-            out.count(key=("ser80", terms, str(d)), kind=f"nutation-series-{terms}")
-    s10 = sdates[:ctx.n(8, 60)]
-    reqs.append(" ".join(["c02ser10", str(len(s10))] + fl(ttts[:len(s10)]) + [str(len(t52))]
-                         + [t for tab, j, rows in t52 for t in [str(tab), str(j), str(len(rows))] + [x for r in rows for x in fl(r)]]))
-    post.append(("series10", {"dates": [str(d) for d in s10[:3]]}, [v for d in s10 for v in iau2010._xysxy2(d)], 1e-10, 1e-10))
-    for d in s10:
-        out.count(key=("ser10", str(d)), kind="cio-series")
+    stations()
+    body_frames()
     # ---- small closed forms
+    set_eop("real")
+    d0 = rand_date(rng)
     for _ in range(ctx.n(40, 2000)):
         kep = rand_kepl(rng)
-        sv = np.array(make_orbit(kep, sdates[0]).copy(form="cartesian"))
+        sv = np.array(make_orbit(kep, d0).copy(form="cartesian"))
         for tnw in (0, 1):
             reqs.append(" ".join(["c02lof", str(tnw)] + fl(sv)))
             post.append(("lof", {"tnw": tnw, "sv": sv.tolist()}, local.to_local("TNW" if tnw else "QSW", sv, expanded=False).T.flatten(), 1e-10, 1e-14))
             out.count(key=reqs[-1], kind="lof-" + ("TNW" if tnw else "QSW"))
         lat, lon, alt = rng.uniform(-1.57, 1.57), rng.uniform(-3.14, 3.14), rng.uniform(-100, 5000)
-        o = orient_mod.TopocentricOrientation.__new__(orient_mod.TopocentricOrientation)
         from beyond.utils.matrix import rot2, rot3
         reqs.append(" ".join(["c02topo"] + fl([lat, lon])))
         post.append(("topo", {"lat": lat, "lon": lon}, (rot3(-lon) @ rot2(lat - np.pi / 2.0) @ rot3(np.pi)).flatten(), 1e-10, 1e-15))
@@ -1039,58 +1155,126 @@ def correspondence(ctx):
         reqs.append(" ".join(["c02geod"] + fl([lat, lon, alt])))
         post.append(("geodetic", {"lat": lat, "lon": lon, "alt": alt}, TopocentricFrame._geodetic_to_cartesian(lat, lon, alt), 1e-12, 1e-9))
         out.count(key=reqs[-1], kind="geodetic")
-    # ---- orientation and frame conversions under the three EOP configurations, on the scenarios (spec -> real frames / model inputs)
+    # ---- phase A: the real code is driven through histories of conversions; nothing of the library is reset in between
     scs = scenarios(rng, idx)
-    for mode in ("real", "zero", "missing"):
+    visits = []
+    # A1. fresh instants under each configuration (10 % beyond the tables: the library falls back to zeros there)
+    for mode in MODES:
         set_eop(mode)
-        for _ in range(ctx.n(30, 1200) if mode == "real" else ctx.n(10, 300)):
-            date = rand_date(rng) if rng.random() < 0.9 else rand_date(rng, 57800, 58800)   # beyond the tables: zeros
-            sc = rng.choice(scs)
-            D = fl(date_args(date))
-            ex, cl = sc.model_inputs(date)
-            htoks = [str(len(sc.ohist))] + [str(v) for h in sc.ohist for v in h]
-            etoks = [str(len(ex))] + [t for c, p, m in ex for t in [str(c), str(p)] + fl(np.asarray(m).flatten())]
-            chist = [(3, 0)] + sc.chist
-            ctoks = [str(len(chist))] + [str(v) for h in chist for v in h] + [str(len(cl))] + [t for c, (par, o, off) in cl.items() for t in [str(c), str(par), str(o)] + fl(off)]
-            byori = {}
-            for fr in sc.frames:
-                byori.setdefault(fr[1], fr)
-            for _ in range(4):
-                fa, fb = byori[rng.choice(list(byori))], byori[rng.choice(list(byori))]
-                a, b = fa[1], fb[1]
-                inp = {"eop": mode, "date": str(date), "a": fa[0], "b": fb[0]}
-                reqs.append(" ".join(["c02conv"] + D + htoks + etoks + [str(a), str(b)]))
-                try:
-                    m = get_frame(fa[0]).orientation.convert_to(date, get_frame(fb[0]).orientation)
-                    shape_err = max(np.abs(m[:3, 3:]).max(), np.abs(m[3:, 3:] - m[:3, :3]).max())
-                    post.append(("convert", inp, list(m[:3, :3].flatten()) + list(m[3:, :3].flatten()), 1e-10, 1e-13))
-                    if shape_err > 1e-13:
-                        out.fail("convert-shape", "6x6 matrix is not of the form [[R,0],[B,R]]", inp, observed=float(shape_err), expected=0.0)
-                except Exception as e:   # connected orientations must be convertible
-                    post.append(("convert", inp, f"raised {type(e).__name__}: {e}", 0, 0))
-                out.count(key=("conv", mode, str(date), fa[0], fb[0]), nontrivial=a != b, kind="orient-convert", eop=mode, pair=f"{min(a, 10)}-{min(b, 10)}" if max(a, b) >= 10 else "builtin")
-            kep = rand_kepl(rng)
-            sv0 = make_orbit(kep, date).copy(form="cartesian")
-            for _ in range(6):
-                fa, fb = rng.choice(sc.frames), rng.choice(sc.frames)
-                inp = {"eop": mode, "date": str(date), "from": fa[0], "to": fb[0]}
-                try:
-                    sa = sv0.copy(frame=fa[0])
-                except Exception as e:
-                    out.fail("model-transform", f"conversion EME2000 -> {fa[3]} raised {type(e).__name__}: {e}", inp, observed="exception", expected="a state")
-                    continue
-                inp["state"] = list(map(float, sa))
-                reqs.append(" ".join(["c02xf"] + D + htoks + etoks + ctoks + [str(fa[1]), str(fa[2]), str(fb[1]), str(fb[2])] + fl(np.array(sa))))
-                try:
-                    sb = np.array(sa.copy(frame=fb[0]))
-                    scale_p = max(np.abs(np.array(sa)[:3]).max(), np.abs(sb[:3]).max(), 7e6)
-                    post.append(("transform", inp, sb, 1e-10, ("pv", 1e-9 * scale_p, 1e-9 * scale_p * 1e-3)))
-                except Exception as e:
-                    post.append(("transform", inp, f"raised {type(e).__name__}: {e}", 0, 0))
-                out.count(key=("xf", mode, str(date), fa[0], fb[0]), nontrivial=fa[0] != fb[0], kind="frame-transform", eop=mode, pair=f"{fa[3] if fa[2] or fa[1] >= 10 else 'builtin'}>{fb[3] if fb[2] or fb[1] >= 10 else 'builtin'}")
+        for _ in range(ctx.n(14, 600) if mode == "real" else ctx.n(5, 150) if mode in ("zero", "missing") else ctx.n(3, 80)):
+            d, s = rand_ds(rng) if rng.random() < 0.9 or mode in ("altdb", "patched") else rand_ds(rng, 57800, 58800)
+            visits.append(Visit(out, rng, rng.choice(scs), mode, "UTC", d, s, s, Date(d, s), 4, 6, "fresh"))
+    # A2. the SAME instants under several configurations in one process, varying orders, repeated requests.  Histories in which the key of
+    # the one date-dependent memo of the code (iau1980._nutation: text of the date) determines its value (theorem session_history_independent):
+    # UTC texts under the four configurations that agree on TAI-UTC, TAI texts under all five.  The model is asked call by call,
+    # statelessly: by the theorem the history does not matter.
+    for scale, modes in (("UTC", [m for m in MODES if m != "missing"]), ("TAI", list(MODES))):
+        held = {}
+        for mode, sub in history_plan(rng, scale, ctx.n(3, 12), ctx.n(2, 4), modes):
+            set_eop(mode)
+            for i, d, s, s_utc in sub:
+                date = held[(mode, i)] if (mode, i) in held and rng.random() < 0.3 else Date(d, s, scale=scale)
+                held[(mode, i)] = date
+                visits.append(Visit(out, rng, rng.choice(scs), mode, scale, d, s, s_utc, date, 3, 3, "shared-" + scale))
+    # A3. UTC texts shared by configurations that DISAGREE on TAI-UTC ('missing': 0 s): the TT instant of the text differs, the key of
+    # the _nutation memo does not determine its value, the code is history dependent (theorem session_stale, ~2e-10 rad) — the model
+    # follows it with the memo inside (sessionRun, one c02seq request for the whole history).  Orientation level, built-ins + station.
+    sc = rng.choice(scs)
+    seq = []
+    for mode, sub in history_plan(rng, "UTC", ctx.n(3, 8), ctx.n(2, 4), ["real", "missing", "zero", "patched"]):
+        set_eop(mode)
+        for i, d, s, s_utc in sub:
+            v = Visit(out, rng, sc, mode, "UTC", d, s, s_utc, Date(d, s), 3, 0, "shared-UTC-mixed-TAI-UTC", orient_only=set(range(11)))
+            v.text_id = i
+            seq.append(v)
+    # A4. the same NAMES registered again with another specification (other station coordinates, reference orbits, offsets), then the
+    # same instants under the same configurations as before: a conversion follows what the name means NOW
+    old = scs[0]
+    again = [v for v in visits if v.sc is old and v.kind.startswith("shared")]
+    rng.shuffle(again)
+    _scenarios[0] = Scenario(rng, idx, old.tag)
+    for v in again[:ctx.n(6, 40)]:
+        set_eop(v.mode)
+        visits.append(Visit(out, rng, _scenarios[0], v.mode, v.scale, v.d, v.s, v.s_utc, Date(v.d, v.s, scale=v.scale), 3, 4, "re-registered"))
     set_eop("real")
-    replies = core.Driver(ID).run(reqs)
+    # ---- phase B: the series of the model at every TT century in play (one batched request per table)
+    ttts = sorted({v.t["ttt"] for v in visits + seq})
+    drv = core.Driver(ID)
+    sreq = [" ".join(["c02ser80", str(len(ttts))] + fl(ttts) + [str(n)] + [t for r in t51[:n] for t in fl(r)]) for n in (106, 4)]
+    sreq.append(" ".join(["c02ser10", str(len(ttts))] + fl(ttts) + [str(len(t52))]
+                         + [t for tab, j, rows in t52 for t in [str(tab), str(j), str(len(rows))] + [x for r in rows for x in fl(r)]]))
+    srep = drv.run(sreq)
+    ser80, ser10 = {}, {}
+    for n, rep in zip((106, 4), srep[:2]):
+        vals = [b2f(t) for t in rep.split()] if rep and rep[0].isdigit() else []
+        if len(vals) != 3 * len(ttts):
+            out.fail("model-series80", "model rejected the request: " + rep[:80], {"terms": n}, observed="", expected=rep[:80])
+            return out
+        ser80[n] = {t: vals[3 * k:3 * k + 3] for k, t in enumerate(ttts)}
+    vals = [b2f(t) for t in srep[2].split()] if srep[2] and srep[2][0].isdigit() else []
+    if len(vals) != 3 * len(ttts):
+        out.fail("model-series10", "model rejected the request: " + srep[2][:80], {}, observed="", expected=srep[2][:80])
+        return out
+    ser10 = {t: vals[3 * k:3 * k + 3] for k, t in enumerate(ttts)}
+    for v in visits:
+        inp = {"eop": v.mode, "date": v.text, "history": v.kind}
+        for n in (106, 4):
+            out.count(key=("ser80", n, v.text, v.mode), kind=f"nutation-series-{n}", history=v.kind)
+            for k, (a, b) in enumerate(zip(v.lib_nut[n], ser80[n][v.t["ttt"]])):
+                if not core.close(float(a), b, rtol=1e-9, atol=1e-15):
+                    out.fail("model-series80", f"_nutation(date, False, {n})[{k}] differs between the implementation (as it answers inside this history) and the Lean model at the TT century of the date",
+                             dict(inp, terms=n), observed=[float(x) for x in v.lib_nut[n]], expected=ser80[n][v.t["ttt"]])
+                    break
+        if v.lib_xys is not None:
+            out.count(key=("ser10", v.text, v.mode), kind="cio-series", history=v.kind)
+            for k, (a, b) in enumerate(zip(v.lib_xys, ser10[v.t["ttt"]])):
+                if not core.close(float(a), b, rtol=1e-10, atol=1e-10):
+                    out.fail("model-series10", f"_xysxy2(date)[{k}] differs between the implementation and the Lean model", inp, observed=[float(x) for x in v.lib_xys], expected=ser10[v.t["ttt"]])
+                    break
+    # ---- phase C: every recorded conversion against the model, a pure function of (text of the date, EOP record, frame specification, state)
+    for v in visits:
+        D = v.D(ser80, ser10)
+        sc = v.sc
+        htoks = [str(len(sc.ohist))] + [str(x) for h in sc.ohist for x in h]
+        etoks = [str(len(v.ex))] + [t for c, p, m in v.ex for t in [str(c), str(p)] + fl(np.asarray(m).flatten())]
+        chist = [(3, 0)] + sc.chist
+        ctoks = [str(len(chist))] + [str(x) for h in chist for x in h] + [str(len(v.cl))] + [t for c, (par, o, off) in v.cl.items() for t in [str(c), str(par), str(o)] + fl(off)]
+        for fa, fb, res in v.conv:
+            reqs.append(" ".join(["c02conv"] + D + htoks + etoks + [str(fa[1]), str(fb[1])]))
+            post.append(("convert", {"eop": v.mode, "date": v.text, "history": v.kind, "a": fa[0], "b": fb[0], "record": v.rec}, res, 1e-10, 1e-13))
+        for fa, fb, sa, res in v.xf:
+            reqs.append(" ".join(["c02xf"] + D + htoks + etoks + ctoks + [str(fa[1]), str(fa[2]), str(fb[1]), str(fb[2])] + fl(sa)))
+            inp = {"eop": v.mode, "date": v.text, "history": v.kind, "from": fa[0], "to": fb[0], "state": list(map(float, sa)), "record": v.rec}
+            if isinstance(res, str):
+                post.append(("transform", inp, res, 0, 0))
+            else:
+                scale_p = max(np.abs(sa[:3]).max(), np.abs(res[:3]).max(), 7e6)
+                post.append(("transform", inp, res, 1e-10, ("pv", 1e-9 * scale_p, 1e-9 * scale_p * 1e-3)))
+    # the mixed TAI-UTC history: one request, the memo inside the model
+    sc = seq[0].sc
+    lat, lon = math.radians(sc.latlonalt[0]), math.radians(sc.latlonalt[1])
+    line = ["c02seq", str(len(sc.ohist))] + [str(x) for h in sc.ohist for x in h] + ["1", "10", str(sc.ITRF)] + fl(np_topo(lat, lon).flatten())
+    calls = [(v, fa, fb, res) for v in seq for fa, fb, res in v.conv]
+    line += [str(len(calls))] + [t for v, fa, fb, res in calls for t in [str(v.text_id)] + v.D(ser80, ser10) + [str(fa[1]), str(fb[1])]]
+    reqs.append(" ".join(line))
+    post.append(("sequence", calls, None, 1e-10, 1e-13))
+    replies = drv.run(reqs)
     for req, (kind, inp, real, rtol, atol), rep in zip(reqs, post, replies):
+        if kind == "sequence":
+            toks = rep.split()
+            pos = 0
+            for k, (v, fa, fb, res) in enumerate(inp):
+                one = toks[pos:pos + 1] if toks[pos:pos + 1] == ["E"] else toks[pos:pos + 18]
+                pos += len(one)
+                cinp = {"eop": v.mode, "date": v.text, "history": v.kind, "call_number": k, "a": fa[0], "b": fb[0], "record": v.rec,
+                        "earlier_calls": [f"{w.mode} {w.text} {x[0]}>{y[0]}" for w, x, y, _ in inp[max(0, k - 6):k]]}
+                out.count(key=("seq", k, v.mode, v.text, fa[0], fb[0]), nontrivial=fa[1] != fb[1], kind="orient-convert-in-history", eop=v.mode, history=v.kind)
+                if isinstance(res, str):
+                    if one != ["E"]:
+                        out.fail("model-sequence", "the implementation " + res + " where the model converts", cinp, observed=res, expected="a matrix")
+                    continue
+                cmp_floats(out, "model-sequence", "Orientation.convert_to inside a history of calls (model: sessionRun with the _nutation memo)", cinp, res, " ".join(one), rtol=rtol, atol=atol)
+            continue
         if isinstance(real, str):
             # the implementation raised where the model (the specification of the frame graph) yields a value
             if rep and rep[0].isdigit():
@@ -1107,7 +1291,7 @@ def correspondence(ctx):
                 out.fail("model-" + kind, "Frame.transform differs between the implementation and the Lean model", inp, observed=[float(x) for x in real], expected=model)
         else:
             model = cmp_floats(out, "model-" + kind, kind, inp, real, rep, rtol=rtol, atol=atol)
-        out.sample({"request": req[:100] + "…", "impl": [float(x) for x in real][:6], "model": (model or [])[:6]}, limit=1 if kind.startswith("series") else 3)
+        out.sample({"request": req[:100] + "…", "impl": [float(x) for x in real][:6], "model": (model or [])[:6]}, limit=3)
     return out
 
 
